@@ -14,12 +14,12 @@ Definition AInv (s : iset) : Prop :=
 
 (* an insertion that makes the list longer touched nothing: it sits strictly before the head, or the head
    lies strictly (non-adjacently) below it *)
-Lemma ref_ins_growth : forall c d t a b,
-  (length ((c, d) :: t) < length (ref_ins a b ((c, d) :: t)))%nat ->
-  (b + 1 < c /\ ref_ins a b ((c, d) :: t) = (a, b) :: (c, d) :: t) \/
-  (c <= b + 1 /\ d + 1 < a /\ ref_ins a b ((c, d) :: t) = (c, d) :: ref_ins a b t).
+Lemma ref_ins_growth : forall (h : ival) (t : list ival) a b,
+  (length (h :: t) < length (ref_ins a b (h :: t)))%nat ->
+  (b + 1 < fst h /\ ref_ins a b (h :: t) = @cons ival (a, b) (h :: t)) \/
+  (fst h <= b + 1 /\ snd h + 1 < a /\ ref_ins a b (h :: t) = h :: ref_ins a b t).
 Proof.
-  intros c d t a b. cbn [ref_ins].
+  intros [c d] t a b. cbn [ref_ins fst snd].
   destruct (N.ltb_spec (b + 1) c); [left; auto|].
   destruct (N.ltb_spec (d + 1) a); [right; auto|].
   intros Hg. pose proof (ref_ins_length t (N.min a c) (N.max b d)). cbn [length] in Hg. lia.
@@ -34,32 +34,32 @@ Proof.
   unfold insert_range, ref_insert_range.
   rewrite (insert_refines pmax s a b Hwf Hb Hsz Hlok). unfold ref_insert at 1.
   destruct (N.ltb_spec b a); [lia|].
-  set (l := intervals s) in *. set (l' := ref_ins a b l).
-  destruct (Nat.ltb_spec (length l) (length l')) as [Hg|Hg]; cbn [negb andb orb].
-  2:{ change (0 =? 0)%Z with true. cbn iota. reflexivity. }
   rewrite Hlim. cbn [under_limit].
-  destruct (N.ltb_spec (N.of_nat (length l)) L) as [Hu|Hu]; cbn [negb andb orb].
+  destruct (intervals s) as [|[c d] t] eqn:El.
+  { cbn [ref_ins length]. change (0 <? 1)%nat with true. change (0 =? 0)%nat with true.
+    cbn [negb andb orb]. rewrite andb_false_r, orb_true_r. change (0 =? 0)%Z with true. cbn iota. reflexivity. }
+  match goal with |- context [ref_ins a b ?X] => remember (ref_ins a b X) as l' eqn:El' end.
+  cbn [length Nat.eqb]. cbn [negb]. rewrite andb_true_r, orb_false_r.
+  destruct (Nat.ltb_spec (S (length t)) (length l')) as [Hg|Hg]; cbn [negb andb orb].
+  2:{ change (0 =? 0)%Z with true. cbn iota. reflexivity. }
+  destruct (N.ltb_spec (N.of_nat (S (length t))) L) as [Hu|Hu]; cbn [negb andb orb].
   { change (0 =? 0)%Z with true. cbn iota. reflexivity. }
-  destruct l as [|[c d] t] eqn:El.
-  { cbn [length]. change (0 =? 0)%nat with true. cbn [negb andb orb]. change (0 =? 0)%Z with true. cbn iota. reflexivity. }
-  change (length ((c, d) :: t) =? 0)%nat with false. cbn [negb andb orb].
   change (1 =? 0)%Z with false. cbn iota.
   (* LimitExceeded: shed the lowest range *)
-  unfold pop_min. fold l in El. rewrite El.
+  unfold pop_min. rewrite El.
   pose proof Hwf as Hwf0. cbn [iswf fst snd] in Hwf. destruct Hwf as (Hcd & Hdm & Hgap & Hwft).
   assert (Hlen_t : N.of_nat (length t) < L) by (cbn [length] in *; lia).
   unfold ival_lt_value. pose proof (cmp_ival_spec (c, d) a Hcd) as Hc. cbn [fst snd] in Hc.
-  destruct (ref_ins_growth c d t a b Hg) as [(H1 & E)|(H1 & H2 & E)]; unfold l'; rewrite E.
+  rewrite El' in Hg. destruct (ref_ins_growth (c, d) t a b Hg) as [(H1 & E)|(H1 & H2 & E)]; cbn [fst snd] in *; rewrite El', E.
   - (* the new range is the lowest: put the popped range back *)
     destruct (cmp_ival_value (c, d) a); try lia.
-    + (* Eq: c <= a <= d contradicts b + 1 < c *) lia.
-    + cbn [fst snd]. rewrite !N.eqb_refl. cbn [andb].
+    { cbn [fst snd]. rewrite !N.eqb_refl. cbn [andb].
       rewrite (insert_front_refines pmax {| limit := limit s; intervals := t |} c d) by
         (cbn [intervals limit]; try assumption; try lia; unfold lim_ok; cbn [limit]; rewrite Hlim; assumption).
       unfold ref_insert. cbn [intervals limit]. destruct (N.ltb_spec d c); [lia|].
       rewrite (ref_ins_head c d t Hgap). cbn [length]. rewrite Hlim. cbn [under_limit].
       destruct (N.ltb_spec (N.of_nat (length t)) L); [|lia]. cbn [negb andb]. rewrite andb_false_r.
-      f_equal. destruct s as [lim0 l0]. cbn in *. subst. reflexivity.
+      f_equal. destruct s as [lim0 l0]. cbn in *. subst. reflexivity. }
   - (* the lowest range lies below the new one: drop it and insert *)
     destruct (cmp_ival_value (c, d) a); try lia.
     cbn [fst snd].
@@ -83,7 +83,7 @@ Proof.
   pose proof (ref_ins_length (intervals s) a b) as Hl'.
   destruct (negb (length (intervals s) <? length (ref_ins a b (intervals s)))%nat
             || under_limit (limit s) (N.of_nat (length (intervals s))) || (length (intervals s) =? 0)%nat) eqn:Ec.
-  - cbn [fst intervals limit]. split; [assumption|]. exists L. repeat split; try assumption.
+  - cbn [fst]. split; [exact Hw'|]. exists L. cbn [intervals limit]. repeat split; try assumption.
     apply orb_true_iff in Ec. destruct Ec as [Ec|Ec].
     + apply orb_true_iff in Ec. destruct Ec as [Ec|Ec].
       * apply negb_true_iff in Ec. apply Nat.ltb_ge in Ec. lia.
@@ -93,6 +93,24 @@ Proof.
     + cbn [fst]. split; [assumption|]. exists L. auto.
     + destruct ((fst h =? a) && (snd h =? b)); cbn [fst intervals limit].
       * split; [assumption|]. exists L. auto.
-      * split; [cbn [iswf] in Hw'; tauto|]. exists L. repeat split; try assumption. cbn [length] in Hl'. lia.
+      * split; [cbn [iswf] in Hw'; tauto|]. exists L. cbn [intervals limit]. repeat split; try assumption. cbn [length] in Hl'. lia.
 Qed.
 
+
+(* the reference discards only its lowest range: a dropped range (LowestRangeDropped, code 2) lies entirely
+   below everything that is retained *)
+Theorem ref_insert_range_drops_lowest : forall s a b, AInv s -> a <= b -> b <= pmax ->
+  forall lo hi, snd (ref_insert_range s a b) = [2%Z; Nz lo; Nz hi] ->
+  forall y, mem y (intervals (fst (ref_insert_range s a b))) -> hi < y.
+Proof.
+  intros s a b (Hwf & L & Hlim & HL1 & HlenL & HLm) Hab Hb lo hi Hout y Hy. unfold ref_insert_range in *.
+  pose proof (ref_ins_wf pmax (intervals s) a b Hwf Hab Hb) as Hw'.
+  destruct (negb (length (intervals s) <? length (ref_ins a b (intervals s)))%nat
+            || under_limit (limit s) (N.of_nat (length (intervals s))) || (length (intervals s) =? 0)%nat) eqn:Ec.
+  - cbn [snd] in Hout. discriminate.
+  - destruct (ref_ins a b (intervals s)) as [|h t] eqn:E.
+    + cbn [snd] in Hout. discriminate.
+    + destruct ((fst h =? a) && (snd h =? b)) eqn:Eh; cbn [fst snd intervals] in *; [discriminate|].
+      injection Hout as _ Hhi. assert (hi = snd h) by (unfold Nz in Hhi; lia). subst hi.
+      destruct Hy as (i & Hi & Hz). pose proof (wf_after _ _ _ Hw' i Hi). lia.
+Qed.
